@@ -33,7 +33,7 @@ Where the code still deviates from the property (findings, each with a counterex
   (an API change);
   the same holds when a (user-defined) plugin breaks the invariant on one expanded query
   (`broken_child_takes_siblings_counterexample`) — the error response now names the original query
-  (`invariant_error_carries_query`, fix c053049; the placeholder request was finding
+  (`invariant_error_carries_query`, fix 755333a; the placeholder request was finding
   `pipeline/invariant-error-loses-request`);
 * the prediction cache is the one piece of shared mutable state: transparent iff no two inputs with different
   predictions share a rounded key (`cache_transparent`, `cache_collision_counterexample`; the collision on the
@@ -289,7 +289,7 @@ invariant-breaking plugins included.  Either the query is not an object and is e
 `p` failed on a query `x` of the state the plugins before it produced from `q` (`q` itself for the first plugin;
 an expanded / augmented query later) and the request is `x` as `p` left it (or the original query, should that
 be the literal placeholder object); or a plugin left something that is not an object and the request is the
-original query (fix c053049: it was the placeholder `{"error":"unable to display query"}`). -/
+original query (fix 755333a: it was the placeholder `{"error":"unable to display query"}`). -/
 theorem error_echoes_request (plugins : List Plugin) (q e : Json) (h : prepT plugins q = .error e) :
     (q.isObject = false ∧ e = .obj [("request", q), ("error", .str "UnexpectedQueryStructure")]) ∨
     (∃ pre p post xs x pe req, plugins = pre ++ p :: post ∧
@@ -394,7 +394,7 @@ example (respond : Json → Json) :
          respond (.obj [("o", .num "0" 0), ("n", .str "c")])] := by
   rfl
 
-/-- **A plugin-broken invariant is answered with the original query as its request** (fix c053049; the request
+/-- **A plugin-broken invariant is answered with the original query as its request** (fix 755333a; the request
 was the placeholder, key `pipeline/invariant-error-loses-request`): whenever the plugin stage succeeds but
 leaves something that is not an object, the query gets exactly one response, `{"request": q, "error":
 <invariant>}` -/
